@@ -231,6 +231,58 @@ example : Gen.C07.dataRowMin 60 120 80 16 240 = 20 ∧ Gen.C07.dataRowMax 60 120
 theorem halo_from_box_width_truncates : max 0 ((60 : Int) - (16 / 2 : Nat)) = 52 ∧ max 0 ((60 : Int) - (80 / 2 : Nat)) = 20 := by
   decide
 
+/-! ## 1b. The worker's synchronisation skeleton, regenerated from the AST of `sigma_filter` and `_sf2` -/
+
+/-- the regenerated skeleton of `sigma_filter` (token list parsed by `Skel.ofCode`) -/
+def sigmaSkel : Skel := Skel.ofCode Gen.C07.sigmaSkel
+
+theorem sevRun_waits (m : Bool) : ∀ (t : List SEv) (st st' : Nat), st ≤ 2 → sevRun m st t = some st' →
+    st + waits t = st' := by
+  intro t
+  induction t with
+  | nil => intro st st' _ h; simp [sevRun] at h; simp [waits, h]
+  | cons e rest ih =>
+    intro st st' hst h
+    have h012 : st = 0 ∨ st = 1 ∨ st = 2 := by omega
+    rcases h012 with h0 | h0 | h0 <;> subst h0 <;> cases e <;> cases m <;>
+      simp [sevRun, sevStep] at h <;>
+      (have := ih _ st' (by omega) h
+       simp [waits, List.count_cons] at this ⊢
+       omega)
+
+/-- **conforms_waits** (for every event sequence, not only the regenerated ones): a path that conforms to the
+    protocol phases passes the barrier exactly once, and exactly once more iff `domask` -/
+theorem conforms_waits (m : Bool) (t : List SEv) (h : conforms m t = true) : waits t = if m then 2 else 1 := by
+  unfold conforms at h
+  have h' : sevRun m 0 t = some (if m then 2 else 1) := by simpa using h
+  have := sevRun_waits m t 0 _ (by omega) h'
+  omega
+
+/-- **skel_conforms**: every path of the regenerated `sigma_filter` that does not end by raising — whatever the
+    data-dependent branches and early returns — writes the background map only before the first barrier (and,
+    masking, after the second), reads it only after the first barrier, never calls `reset()`/`abort()`, and passes the barrier once, twice iff `domask` -/
+theorem skel_conforms : ∀ m : Bool, ∀ p ∈ sigmaSkel.paths m, p.2 ≠ .raised → conforms m p.1 = true := by decide
+
+/-- **skel_each_barrier_once**: on every such path the number of `barrier.wait()` calls is 1 without and 2 with
+    `domask` — the number of barriers a stripe of the protocol model passes (`ent c .done`), so the barrier's party
+    count is met exactly once per generation by every stripe -/
+theorem skel_each_barrier_once (m : Bool) (p : List SEv × SEnd) (hp : p ∈ sigmaSkel.paths m) (hn : p.2 ≠ .raised) :
+    waits p.1 = ent { n := 1, parties := 1, slots := 1, mask := m, reset := false, abort := true } .done := by
+  rw [conforms_waits m p.1 (skel_conforms m p hp hn)]
+  cases m <;> rfl
+
+/-- non-vacuity: the regenerated skeleton has a normally ending path for either value of `domask` -/
+example : (sigmaSkel.paths true).any (fun p => p.2 != .raised) = true ∧
+    (sigmaSkel.paths false).any (fun p => p.2 != .raised) = true := by decide
+
+/-- teeth: an early return before the second barrier (a stripe with nothing to mask) does not conform -/
+example : conforms true [.wBkg, .wait, .rBkg, .wRms] = false ∧ conforms true [.wBkg, .wait, .rBkg, .wRms, .wait, .wBkg] = true ∧
+    conforms false [.wBkg, .wait, .rBkg, .wRms] = true ∧ conforms true [.wBkg, .wait, .wBkg, .wait] = false := by decide
+
+/-- **sf2_aborts**: every `except` clause of the regenerated `_sf2` aborts the barrier and re-raises, and one of them
+    catches `BaseException` — the hypothesis `abort := true` of the repaired protocol, for every exception type -/
+theorem sf2_aborts : handlersOK (Gen.C07.sf2Handlers.map Handler.ofRaw) = true := by decide
+
 /-! ## 2. Protocol: the repaired code -/
 
 /-- the repaired configuration satisfies the hypotheses of the theorems below, whatever `cores` is:
